@@ -110,5 +110,27 @@ def run_k1(ctx, n_main=None):
         for g in gens:
             total += compare_generated(run, g)
             run.count()
+        # generation must not depend on what the same interpreter generated before: regenerate every scenario
+        # in ONE worker process, in reverse order (fragment / type / operation names repeat across scenarios),
+        # and compare every file byte for byte with the pooled generation
+        ok = [g for g in gens if g.ok]
+        again = scen.generate([g.sc for g in reversed(ok)], sc, jobs=1)
+        for g, h in zip(reversed(ok), again):
+            run.count()
+            if not h.ok:
+                run.violation(f"scenario {g.sc.seed} generates in a fresh process but fails after other generations in "
+                              f"the same interpreter: {h.res.get('exc')}",
+                              {"seed": g.sc.seed, "schema": g.sc.sdl, "queries": g.sc.queries, "config": g.res.get("config"),
+                               "exception": h.res.get("exc")})
+                continue
+            fa, fb = g.files(), h.files()
+            diff = sorted(k for k in set(fa) | set(fb) if fa.get(k) != fb.get(k))
+            if diff:
+                run.violation(f"generated files of scenario {g.sc.seed} depend on what the interpreter generated before: "
+                              f"{diff[:4]} differ",
+                              {"seed": g.sc.seed, "schema": g.sc.sdl, "queries": g.sc.queries, "config": g.res.get("config"),
+                               "files": diff, "first": fa.get(diff[0], "")[:1500], "second": fb.get(diff[0], "")[:1500]})
+            else:
+                run.dist("k1", "same-after-other-generations")
     run.extra["k1_modules_compared"] = total
     return total
